@@ -10,7 +10,8 @@ import (
 )
 
 // IDs returns n identifiers from one of the alphabets; all have distinct non-zero scalar images.
-//  0: short ASCII   1: 40-byte (scalar image wraps mod q)   2: multi-byte UTF-8   3: embedded NUL / separators
+//
+//	0: short ASCII   1: 40-byte (scalar image wraps mod q)   2: multi-byte UTF-8   3: embedded NUL / separators
 func IDs(r *vk.Rand, alphabet, n int) []party.ID {
 	for {
 		ids := make([]party.ID, 0, n)
